@@ -10,6 +10,13 @@ func properties() []*propDef {
 			Assumptions: []string{"years are in 0..9999", "collections contain only System values and FHIR messages"},
 		},
 		{
+			ID: "C02", Title: "Path navigation returns exactly the elements of the resource's FHIR JSON tree",
+			Rules: []ruleFn{ruleNAV4, ruleNAV6, ruleORD5},
+			Explanation: "Structural necessary conditions of navigation, decided against the R4 schema as present in the generated google/fhir Go types.",
+			NotDecided: []string{"equality of navigation results with the JSON tree (run-time values)", "document order", "date/time rendering"},
+			Assumptions: []string{"generated Go struct tags carry the proto and JSON field names"},
+		},
+		{
 			ID: "C03", Title: "Evaluation never mutates its inputs",
 			Rules: []ruleFn{ruleMUT1, ruleMUT2, ruleMUT3, ruleMUT4},
 			Explanation: "Effect analysis over every repository function reachable (VTA call graph) from the Evaluate entry points: MUT1 no protoreflect/proto mutator or generated-struct field store on a non-fresh message; MUT2 every append / element store / copy / in-place helper writes through a slice allocated in the same activation (EN-PROV freshness, through phis, local cells, closures and in-repo callees); MUT3 no store to a field of a compiled expression node; MUT4 evaluation Context fields are written only by the frozen writer table. Positive controls: the same scans from the patch API and from Compile must find the mutators / construction stores that exist there.",
